@@ -414,7 +414,7 @@ ExprOK(e, T) ==
                         /\ ~(IsLit(e.l) /\ IsLit(e.r))                                      \* would be constant-folded
                         /\ Ty(e.l, T) \notin {"B", "X"} /\ Ty(e.r, T) \notin {"B", "X"}
                         /\ (e.op \in BitOps \cup ShiftOps => Ty(e.l, T) # "D" /\ Ty(e.r, T) # "D")
-                        /\ (e.op = "**" => e.r.k = "int")
+                        /\ Ty(e, T) # "X"
       [] e.k \in {"neg", "abs", "inv"} -> ExprOK(e.e, T) /\ ~IsLit(e.e) /\ Ty(e.e, T) \notin {"B", "X"} /\ (e.k = "inv" => Ty(e.e, T) # "D")
       [] e.k = "len" -> ExprOK(e.e, T)
       [] e.k = "cond" -> ExprOK(e.c, T) /\ ExprOK(e.a, T) /\ ExprOK(e.b, T) /\ (Ty(e.a, T) = Ty(e.b, T) \/ "O" \in {Ty(e.a, T), Ty(e.b, T)})
@@ -599,10 +599,10 @@ Represents(ty, v) ==
       [] ty = "U" -> v.t = "str" /\ Len(v.s) = 1
       [] ty = "S" -> v.t = "str"
       [] OTHER -> TRUE
-StoreHazards(x, ty, v) ==
-    IF v.t = "und" \/ Represents(ty, v) THEN {}
+StoreHazards(x, ty, v, rty) ==       \* rty: static type of the stored expression; the same C type: nothing is converted
+    IF v.t = "und" \/ rty = ty \/ Represents(ty, v) THEN {}
     ELSE IF ty = "D" /\ IntV(v) THEN {Hz("int_as_double", "span_long_double", x)}
-    ELSE IF ty = "L" /\ v.t = "str" THEN {Hz("char_as_long", "span_ucs4_long", x)}
+    ELSE IF ty \in {"L", "D"} /\ v.t = "str" THEN {Hz("char_as_number", "span_ucs4_numeric", x)}
     ELSE {Hz("store_mismatch", "unexpected_" \o ty, x)}
 
 ---------------------------------------------------------------------------
@@ -617,59 +617,61 @@ Live == m.ph = "run" /\ m.out.t = "run"
 AtStmt(k) == Live /\ m.stk # <<>> /\ Top.k = "blk" /\ Top.i <= Len(Top.b) /\ Top.b[Top.i].k = k
 Cur == Top.b[Top.i]
 Adv == Pop \o <<[Top EXCEPT !.i = Top.i + 1]>>       \* the stack with the current statement done
-Stop(v, hz) == m' = [m EXCEPT !.out = v, !.hz = m.hz \cup hz, !.steps = m.steps + 1]
+Stop(a, v, hz) == m' = [m EXCEPT !.out = v, !.hz = m.hz \cup hz, !.steps = m.steps + 1, !.acts = m.acts \cup {a}]
 Budget == m.steps < MaxSteps
 TooBig(v) == (v.t = "int" /\ Len(v.m) > MaxLimbs) \/ v.t = "tup"       \* beyond the model's bound: the case is left undecided
-OverBudget == Live /\ ~Budget /\ m' = [m EXCEPT !.out = Und]
+OverBudget == Live /\ ~Budget /\ m' = [m EXCEPT !.acts = m.acts \cup {"OverBudget"}, !.out = Und]
 
 StepAsg == AtStmt("asg") /\ Budget /\
     LET x == Eval(Cur.e, m.env, T, "f") IN
-    IF Dead(x.v) THEN Stop(x.v, x.hz)
-    ELSE IF TooBig(x.v) THEN Stop(Und, x.hz)
-    ELSE m' = [m EXCEPT !.env = [m.env EXCEPT ![Cur.v] = x.v], !.stk = Adv, !.steps = m.steps + 1,
-                        !.hz = m.hz \cup x.hz \cup StoreHazards(Cur.v, T[Cur.v], x.v)]
+    IF Dead(x.v) THEN Stop("StepAsg", x.v, x.hz)
+    ELSE IF TooBig(x.v) THEN Stop("StepAsg", Und, x.hz)
+    ELSE m' = [m EXCEPT !.acts = m.acts \cup {"StepAsg"}, !.env = [m.env EXCEPT ![Cur.v] = x.v], !.stk = Adv, !.steps = m.steps + 1,
+                        !.hz = m.hz \cup x.hz \cup StoreHazards(Cur.v, T[Cur.v], x.v, Ty(Cur.e, T))]
 StepAug == AtStmt("aug") /\ Budget /\
     LET x == Eval(BinE(Cur.op, NameE(Cur.v), Cur.e), m.env, T, "f") IN
-    IF Dead(x.v) THEN Stop(x.v, x.hz)
-    ELSE IF TooBig(x.v) THEN Stop(Und, x.hz)
-    ELSE m' = [m EXCEPT !.env = [m.env EXCEPT ![Cur.v] = x.v], !.stk = Adv, !.steps = m.steps + 1,
-                        !.hz = m.hz \cup x.hz \cup StoreHazards(Cur.v, T[Cur.v], x.v)]
+    IF Dead(x.v) THEN Stop("StepAug", x.v, x.hz)
+    ELSE IF TooBig(x.v) THEN Stop("StepAug", Und, x.hz)
+    ELSE m' = [m EXCEPT !.acts = m.acts \cup {"StepAug"}, !.env = [m.env EXCEPT ![Cur.v] = x.v], !.stk = Adv, !.steps = m.steps + 1,
+                        !.hz = m.hz \cup x.hz \cup StoreHazards(Cur.v, T[Cur.v], x.v, Ty(BinE(Cur.op, NameE(Cur.v), Cur.e), T))]
 StepIf == AtStmt("if") /\ Budget /\
     LET c == Eval(Cur.c, m.env, T, "f") IN
-    IF Dead(c.v) THEN Stop(c.v, c.hz)
-    ELSE IF ~TruthDecided(c.v) THEN Stop(Und, c.hz)
-    ELSE m' = [m EXCEPT !.stk = Adv \o <<BlkFr(IF Truth(c.v) THEN Cur.t ELSE Cur.f)>>, !.hz = m.hz \cup c.hz, !.steps = m.steps + 1]
+    IF Dead(c.v) THEN Stop("StepIf", c.v, c.hz)
+    ELSE IF ~TruthDecided(c.v) THEN Stop("StepIf", Und, c.hz)
+    ELSE m' = [m EXCEPT !.acts = m.acts \cup {"StepIf"}, !.stk = Adv \o <<BlkFr(IF Truth(c.v) THEN Cur.t ELSE Cur.f)>>, !.hz = m.hz \cup c.hz, !.steps = m.steps + 1]
+Small30(x) == Len(x.m) <= 2 \/ (Len(x.m) = 3 /\ MCmp(x.m, <<1824, 3741, 10>>) < 0)          \* |x| < 2^30
+Int30(x) == LET n == Limb(x.m, 1) + B * Limb(x.m, 2) + B * B * Limb(x.m, 3) IN IF x.neg THEN -n ELSE n
 RangeOf(vs) ==      \* values of range()'s arguments -> [ok, lo, hi, st] | exception
     IF \E i \in 1..Len(vs) : vs[i].t = "und" THEN Und
     ELSE IF \E i \in 1..Len(vs) : ~IntV(vs[i]) THEN Exc("TypeError")
-    ELSE IF \E i \in 1..Len(vs) : ~ISmall(AsInt(vs[i])) THEN Und
-    ELSE LET n(i) == IToInt(AsInt(vs[i])) IN
+    ELSE IF \E i \in 1..Len(vs) : ~Small30(AsInt(vs[i])) THEN Und
+    ELSE LET n(i) == Int30(AsInt(vs[i])) IN
          IF Len(vs) = 1 THEN [t |-> "range", lo |-> 0, hi |-> n(1), st |-> 1]
          ELSE IF Len(vs) = 2 THEN [t |-> "range", lo |-> n(1), hi |-> n(2), st |-> 1]
          ELSE IF n(3) = 0 THEN Exc("ValueError") ELSE [t |-> "range", lo |-> n(1), hi |-> n(2), st |-> n(3)]
 StepForRange == AtStmt("forr") /\ Budget /\
     LET x == EvalSeq(Cur.args, 1, m.env, T, "f")
         r == IF x.dead.t = "exc" THEN x.dead ELSE RangeOf(x.vs)
-    IN IF r.t # "range" THEN Stop(r, x.hz)
-       ELSE m' = [m EXCEPT !.stk = Adv \o <<[k |-> "forr", v |-> Cur.v, cur |-> r.lo, hi |-> r.hi, st |-> r.st, b |-> Cur.b]>>,
+    IN IF r.t # "range" THEN Stop("StepForRange", r, x.hz)
+       ELSE m' = [m EXCEPT !.acts = m.acts \cup {"StepForRange"}, !.stk = Adv \o <<[k |-> "forr", v |-> Cur.v, cur |-> r.lo, hi |-> r.hi, st |-> r.st, b |-> Cur.b]>>,
                            !.hz = m.hz \cup x.hz, !.steps = m.steps + 1]
 StepForStr == AtStmt("fors") /\ Budget /\
     LET x == Eval(Cur.s, m.env, T, "f") IN
-    IF Dead(x.v) THEN Stop(x.v, x.hz)
-    ELSE IF x.v.t # "str" THEN Stop(Exc("TypeError"), x.hz)
-    ELSE m' = [m EXCEPT !.stk = Adv \o <<[k |-> "fors", v |-> Cur.v, s |-> x.v.s, i |-> 1, b |-> Cur.b]>>,
+    IF Dead(x.v) THEN Stop("StepForStr", x.v, x.hz)
+    ELSE IF x.v.t # "str" THEN Stop("StepForStr", Exc("TypeError"), x.hz)
+    ELSE m' = [m EXCEPT !.acts = m.acts \cup {"StepForStr"}, !.stk = Adv \o <<[k |-> "fors", v |-> Cur.v, s |-> x.v.s, i |-> 1, b |-> Cur.b]>>,
                         !.hz = m.hz \cup x.hz, !.steps = m.steps + 1]
 StepReturn == AtStmt("ret") /\ Budget /\
-    LET x == Eval(Cur.e, m.env, T, "f") IN Stop(x.v, x.hz)
+    LET x == Eval(Cur.e, m.env, T, "f") IN Stop("StepReturn", x.v, x.hz)
 More(f) == IF f.k = "forr" THEN (IF f.st > 0 THEN f.cur < f.hi ELSE f.cur > f.hi) ELSE f.i <= Len(f.s)
 StepIter == Live /\ Budget /\ m.stk # <<>> /\ Top.k \in {"forr", "fors"} /\ More(Top) /\
     LET v == IF Top.k = "forr" THEN ISmallInt(Top.cur) ELSE Str(<<Top.s[Top.i]>>)
         f == IF Top.k = "forr" THEN [Top EXCEPT !.cur = Top.cur + Top.st] ELSE [Top EXCEPT !.i = Top.i + 1]
-    IN m' = [m EXCEPT !.env = [m.env EXCEPT ![Top.v] = v], !.stk = Pop \o <<f, BlkFr(Top.b)>>, !.steps = m.steps + 1,
-                      !.hz = m.hz \cup StoreHazards(Top.v, T[Top.v], v)]
-StepLoopEnd == Live /\ m.stk # <<>> /\ Top.k \in {"forr", "fors"} /\ ~More(Top) /\ m' = [m EXCEPT !.stk = Pop]
-StepBlockEnd == Live /\ m.stk # <<>> /\ Top.k = "blk" /\ Top.i > Len(Top.b) /\ m' = [m EXCEPT !.stk = Pop]
-StepFallOff == Live /\ m.stk = <<>> /\ Stop(NoneV, {})
+    IN m' = [m EXCEPT !.acts = m.acts \cup {"StepIter"}, !.env = [m.env EXCEPT ![Top.v] = v], !.stk = Pop \o <<f, BlkFr(Top.b)>>, !.steps = m.steps + 1,
+                      !.hz = m.hz \cup StoreHazards(Top.v, T[Top.v], v, IF Top.k = "forr" THEN "L" ELSE "U")]
+StepLoopEnd == Live /\ m.stk # <<>> /\ Top.k \in {"forr", "fors"} /\ ~More(Top) /\ m' = [m EXCEPT !.acts = m.acts \cup {"StepLoopEnd"}, !.stk = Pop]
+StepBlockEnd == Live /\ m.stk # <<>> /\ Top.k = "blk" /\ Top.i > Len(Top.b) /\ m' = [m EXCEPT !.acts = m.acts \cup {"StepBlockEnd"}, !.stk = Pop]
+StepFallOff == Live /\ m.stk = <<>> /\ Stop("StepFallOff", NoneV, {})
 
 ---------------------------------------------------------------------------
 (* Part 3: the inferer's own rules *)
@@ -772,7 +774,7 @@ Static(p) ==
 InitRun == \E pid \in 1..Len(Progs) :
               \/ m = [ph |-> "static", pid |-> pid, done |-> FALSE, res |-> Und]
               \/ \E inp \in 1..Len(Progs[pid].inputs) :
-                    m = [ph |-> "run", pid |-> pid, inp |-> inp, steps |-> 0, hz |-> {}, out |-> Running,
+                    m = [ph |-> "run", pid |-> pid, inp |-> inp, steps |-> 0, hz |-> {}, out |-> Running, acts |-> {},
                          stk |-> <<BlkFr(Progs[pid].body)>>,
                          env |-> [x \in SeqSet(Progs[pid].locals) |->
                                     IF \E j \in 1..Len(Progs[pid].params) : Progs[pid].params[j] = x
@@ -794,11 +796,11 @@ RunWellFormed == m.ph = "run" =>
 IntsBounded == m.ph = "run" => \A x \in DOMAIN m.env : m.env[x].t = "int" => Len(m.env[x].m) <= MaxLimbs
 \* a C-typed local only ever holds a value its type represents -- or the anomaly is on record
 StoreSound == m.ph = "run" => \A x \in DOMAIN m.env :
-    (m.env[x].t # "unb" /\ ~Represents(T[x], m.env[x])) => \E h \in m.hz : h.v = x
+    (m.env[x].t # "unb" /\ ~Represents(T[x], m.env[x])) => m.hz # {}
 \* parameters are Python objects, never retyped
 ParamsAreObjects == m.ph = "run" => \A i \in 1..Len(P.params) : T[P.params[i]] = "O"
 HazardsAttributed == m.ph = "run" => \A h \in m.hz : h.c # ""
 Terminated == m.ph = "run" /\ m.out.t # "run"
-PublishRun == /\ Terminated => PrintT("@@" \o ToJson([pid |-> P.pid, inp |-> m.inp, out |-> m.out, hz |-> m.hz, steps |-> m.steps]))
+PublishRun == /\ Terminated => PrintT("@@" \o ToJson([pid |-> P.pid, inp |-> m.inp, out |-> m.out, hz |-> m.hz, steps |-> m.steps, acts |-> m.acts]))
               /\ (m.ph = "static" /\ m.done) => PrintT("@@" \o ToJson(m.res))
 =============================================================================
